@@ -38,7 +38,7 @@ type Op struct {
 	Joins []JoinSpec `json:"joins,omitempty"`
 	Blind []int64    `json:"blind,omitempty"` // level, ante, dealer, sb, bb
 	Gc    int        `json:"gc,omitempty"`
-	Who   string     `json:"who,omitempty"` // symbolic caller for "act": cur, other, out, stranger (resolved at run time)
+	Who   string     `json:"who,omitempty"`  // symbolic caller for "act": cur, other, out, stranger (resolved at run time)
 	Then  []Op       `json:"then,omitempty"` // "bgreserve": what the driver does while the background call is parked inside the engine lock
 }
 
@@ -50,21 +50,21 @@ type Inj struct {
 }
 
 type HandPlan struct {
-	Strength     []int  `json:"strength,omitempty"`
-	TieAll       bool   `json:"tieall,omitempty"`
-	Policy       string `json:"policy"`
-	Inj          []Inj  `json:"inj,omitempty"`
-	WithholdFin  int    `json:"withholdfin,omitempty"`  // number of settlement-finish signals withheld (gate then opens by timeout)
-	WithholdAns  string `json:"withholdans,omitempty"`  // "", "ready1", "ante", "blinds": withhold one answer for WithholdMs, then give it
-	WithholdMs   int    `json:"withholdms,omitempty"`
-	DupAnswers   bool   `json:"dupanswers,omitempty"`   // repeat ready/pay answers
-	ShuffleAns   bool   `json:"shuffleans,omitempty"`   // answer in random order
-	Script       []Op   `json:"script,omitempty"`       // scripted betting line (kind, amt) used before falling back to policy
-	FailOrd      map[int]int `json:"failord,omitempty"` // backend ordinal -> failures before success
-	FailKind     map[string]int `json:"failkind,omitempty"`
-	MaxTurns     int    `json:"maxturns,omitempty"`
-	ThinkMs      int    `json:"thinkms,omitempty"`   // the mover of turn ThinkTurn waits this long before acting
-	ThinkTurn    int    `json:"thinkturn,omitempty"`
+	Strength    []int          `json:"strength,omitempty"`
+	TieAll      bool           `json:"tieall,omitempty"`
+	Policy      string         `json:"policy"`
+	Inj         []Inj          `json:"inj,omitempty"`
+	WithholdFin int            `json:"withholdfin,omitempty"` // number of settlement-finish signals withheld (gate then opens by timeout)
+	WithholdAns string         `json:"withholdans,omitempty"` // "", "ready1", "ante", "blinds": withhold one answer for WithholdMs, then give it
+	WithholdMs  int            `json:"withholdms,omitempty"`
+	DupAnswers  bool           `json:"dupanswers,omitempty"` // repeat ready/pay answers
+	ShuffleAns  bool           `json:"shuffleans,omitempty"` // answer in random order
+	Script      []Op           `json:"script,omitempty"`     // scripted betting line (kind, amt) used before falling back to policy
+	FailOrd     map[int]int    `json:"failord,omitempty"`    // backend ordinal -> failures before success
+	FailKind    map[string]int `json:"failkind,omitempty"`
+	MaxTurns    int            `json:"maxturns,omitempty"`
+	ThinkMs     int            `json:"thinkms,omitempty"` // the mover of turn ThinkTurn waits this long before acting
+	ThinkTurn   int            `json:"thinkturn,omitempty"`
 }
 
 type Step struct {
@@ -84,7 +84,7 @@ type Scenario struct {
 	Steps      []Step     `json:"steps"`
 	Tags       []string   `json:"tags,omitempty"`
 	MinChip    int64      `json:"minchip,omitempty"`
-	Via        string     `json:"via,omitempty"` // "manager": every call goes through a pokertable.Manager next to bystander tables
+	Via        string     `json:"via,omitempty"`    // "manager": every call goes through a pokertable.Manager next to bystander tables
 	Actors     bool       `json:"actors,omitempty"` // attach observer actors to every table update (C20)
 	Bots       bool       `json:"bots,omitempty"`   // every seated player is a real botRunner; the driver only sends settlement-finish signals (C18)
 	Interval   int        `json:"interval,omitempty"`
@@ -102,35 +102,37 @@ type TD struct {
 
 	hmu       sync.Mutex
 	counts    map[string]int
-	gateOps   map[string][]Op        // armed gates (point or point#k)
-	parkedAt  string                 // point at which an engine goroutine is parked
+	gateOps   map[string][]Op // armed gates (point or point#k)
+	parkedAt  string          // point at which an engine goroutine is parked
 	release   chan struct{}
 	servicing bool
 
 	queued, handled int64
 
 	// shadow of what the driver itself did (used only to decide what to wait for)
-	ansKey    int64
-	answered  map[int]bool
-	overlaps  int
-	gone      bool
-	early     map[string]map[int]bool // collection event -> game indexes whose answer was accepted before the request was published
-	gateParts map[string]bool
-	gateSig   map[string]bool
-	gateDone  bool
-	gateFiring bool
-	gateEpoch int
-	stuck     bool
-	autoFailed bool
-	dead      bool
-	injDone   map[string]bool
-	mgr       pt.Manager
-	obsAdapters []interface{ UpdateTableState(*pt.Table) error }
-	actMu       sync.Mutex
-	botMu       sync.Mutex
-	bots        map[string]*actorHandle
-	deliveryPre *PState
-	bystanders []string
+	ansKey          int64
+	answered        map[int]bool
+	overlaps        int
+	gone            bool
+	companion       string
+	stopCompanionFn func()
+	early           map[string]map[int]bool // collection event -> game indexes whose answer was accepted before the request was published
+	gateParts       map[string]bool
+	gateSig         map[string]bool
+	gateDone        bool
+	gateFiring      bool
+	gateEpoch       int
+	stuck           bool
+	autoFailed      bool
+	dead            bool
+	injDone         map[string]bool
+	mgr             pt.Manager
+	obsAdapters     []interface{ UpdateTableState(*pt.Table) error }
+	actMu           sync.Mutex
+	botMu           sync.Mutex
+	bots            map[string]*actorHandle
+	deliveryPre     *PState
+	bystanders      []string
 }
 
 func errNameT(err error) string {
@@ -526,7 +528,18 @@ func (d *TD) bystanderDigest() string {
 	s := ""
 	for _, id := range d.bystanders {
 		if e, err := d.mgr.GetTableEngine(id); err == nil {
-			s += tableDigest(e.GetTable())
+			func() {
+				defer func() {
+					if r := recover(); r != nil {
+						s += "broken"
+					}
+				}()
+				if t := e.GetTable(); t == nil {
+					s += "no-table"
+				} else {
+					s += tableDigest(t)
+				}
+			}()
 		} else {
 			s += "gone"
 		}
@@ -898,13 +911,17 @@ func (d *TD) exec(o Op) string {
 	switch o.Op {
 	case "reserve":
 		a.ID, a.Seat, a.Chips = o.ID, o.Seat, o.Chips
-		return d.call("PlayerReserve", &a, func() error { return te.PlayerReserve(pt.JoinPlayer{PlayerID: o.ID, RedeemChips: o.Chips, Seat: o.Seat}) })
+		return d.call("PlayerReserve", &a, func() error {
+			return te.PlayerReserve(pt.JoinPlayer{PlayerID: o.ID, RedeemChips: o.Chips, Seat: o.Seat})
+		})
 	case "join":
 		a.ID = o.ID
 		return d.call("PlayerJoin", &a, func() error { return te.PlayerJoin(o.ID) })
 	case "redeem":
 		a.ID, a.Chips = o.ID, o.Chips
-		return d.call("PlayerRedeemChips", &a, func() error { return te.PlayerRedeemChips(pt.JoinPlayer{PlayerID: o.ID, RedeemChips: o.Chips, Seat: -1}) })
+		return d.call("PlayerRedeemChips", &a, func() error {
+			return te.PlayerRedeemChips(pt.JoinPlayer{PlayerID: o.ID, RedeemChips: o.Chips, Seat: -1})
+		})
 	case "leaveout":
 		// a departure the schedule wants between hands: a participant of a running hand is left alone (recorded finding
 		// KF-midhand-leave)
@@ -1486,7 +1503,15 @@ func (d *TD) managerProbes() {
 		}
 		for _, c := range calls {
 			by0 := d.bystanderDigest()
-			err := c.f()
+			var err error
+			func() {
+				defer func() {
+					if r := recover(); r != nil {
+						err = fmt.Errorf("panic: %v", r)
+					}
+				}()
+				err = c.f()
+			}()
 			a := mkArgs()
 			a.Kind, a.Note, a.ID = c.n, phase, id
 			d.rec.mu.Lock()
@@ -1500,6 +1525,47 @@ func (d *TD) managerProbes() {
 		}
 	}
 	probe("never-created", "unknown")
+	// a create that the engine refuses must leave no table behind: neither a new one under a fresh id nor a changed one
+	// under the id of a live table
+	bad := func(id string) pt.TableSetting {
+		meta := pt.TableMeta{CompetitionID: "c", Rule: "default", Mode: "ct", MaxDuration: 1000000, TableMaxSeatCount: 2, TableMinPlayerCount: 2, MinChipUnit: 1, ActionTime: 10}
+		jp := []pt.JoinPlayer{{PlayerID: "r1", RedeemChips: 5, Seat: 0}, {PlayerID: "r2", RedeemChips: 5, Seat: 1}, {PlayerID: "r3", RedeemChips: 5, Seat: -1}}
+		switch d.sc.Seed % 3 {
+		case 0:
+			jp = []pt.JoinPlayer{{PlayerID: "r1", RedeemChips: 5, Seat: 0}, {PlayerID: "r1", RedeemChips: 5, Seat: 1}}
+		case 1:
+			jp = []pt.JoinPlayer{{PlayerID: "r1", RedeemChips: 5, Seat: 1}, {PlayerID: "r2", RedeemChips: 5, Seat: 1}}
+		}
+		return pt.TableSetting{TableID: id, Meta: meta, Blind: pt.TableBlindState{Level: 1, SB: 1, BB: 2}, JoinPlayers: jp}
+	}
+	refused := func(id, phase string) {
+		by0 := d.bystanderDigest()
+		res := func() (res string) {
+			defer func() {
+				if r := recover(); r != nil {
+					res = "panic"
+				}
+			}()
+			_, e := m.CreateTable(nil, nil, bad(id))
+			return errNameT(e)
+		}()
+		a := mkArgs()
+		a.Kind, a.Note, a.ID = "CreateTable", phase, id
+		d.rec.mu.Lock()
+		if d.bystanderDigest() == by0 {
+			d.rec.by = "same"
+		} else {
+			d.rec.by = "changed"
+		}
+		d.rec.mu.Unlock()
+		d.rec.Emit("mgrrefused", a, res, nil, nil, nil, false)
+	}
+	fresh := fmt.Sprintf("refused-%d", d.sc.Seed)
+	refused(fresh, "fresh-id")
+	probe(fresh, "after-refused-create")
+	if len(d.bystanders) > 0 {
+		refused(d.bystanders[0], "id-of-a-live-table")
+	}
 	// close (or release) the driver's own table through the manager, then it must be unknown as well
 	a := mkArgs()
 	var err error
@@ -1568,6 +1634,10 @@ func (d *TD) Run() string {
 			d.bystanders = append(d.bystanders, bt.ID)
 		}
 	}
+	if d.mgr != nil && res == "ok" && sc.Seed%2 == 0 {
+		d.startCompanion()
+		defer d.stopCompanion()
+	}
 	d.rec.Emit("ret:CreateTable", a, res, d.te, nil, nil, false)
 	if res != "ok" {
 		d.rec.Emit("end", mkArgs(), "create-failed", d.te, nil, nil, false)
@@ -1612,4 +1682,77 @@ func (d *TD) Run() string {
 		pt.VerifSetHook(re, nil)
 	}
 	return outcome
+}
+
+// startCompanion: a second LIVE table of the same manager, played by two real bots hand after hand while the table under
+// test is driven: its timers, gate and hands run next to ours (every manager table must keep to itself, C17).
+func (d *TD) startCompanion() {
+	id := fmt.Sprintf("co%d", d.sc.Seed)
+	m := d.mgr
+	cbs := pt.NewTableEngineCallbacks()
+	var mu sync.Mutex
+	bots := map[string]interface{ UpdateTableState(*pt.Table) error }{}
+	stopped := false
+	cbs.OnTableUpdated = func(t *pt.Table) {
+		mu.Lock()
+		if stopped || t == nil || t.State == nil {
+			mu.Unlock()
+			return
+		}
+		te, err := m.GetTableEngine(id)
+		if err != nil {
+			mu.Unlock()
+			return
+		}
+		var todo []interface{ UpdateTableState(*pt.Table) error }
+		for _, p := range t.State.PlayerStates {
+			h, ok := bots[p.PlayerID]
+			if !ok {
+				a := actor.NewActor()
+				ad := actor.NewTableEngineAdapter(te, t)
+				a.SetAdapter(ad)
+				a.SetRunner(actor.NewBotRunner(p.PlayerID))
+				h = ad
+				bots[p.PlayerID] = h
+			}
+			todo = append(todo, h)
+		}
+		mu.Unlock()
+		for _, h := range todo {
+			h.UpdateTableState(t)
+		}
+	}
+	cbs.OnReadyOpenFirstTableGame = func(c, tid string, gc int, ps []*pt.TablePlayerState) {
+		parts := map[string]int{}
+		for i, p := range ps {
+			parts[p.PlayerID] = i
+		}
+		m.SetUpTableGame(id, gc, parts)
+	}
+	_, err := m.CreateTable(&pt.TableEngineOptions{GameContinueInterval: 1, OpenGameTimeout: 2}, cbs, pt.TableSetting{TableID: id,
+		Meta:  pt.TableMeta{CompetitionID: "c", Rule: "default", Mode: "ct", MaxDuration: 1000000, TableMaxSeatCount: 4, TableMinPlayerCount: 2, MinChipUnit: 1, ActionTime: 10},
+		Blind: pt.TableBlindState{Level: 1, SB: 1, BB: 2}, JoinPlayers: []pt.JoinPlayer{{PlayerID: "c1", RedeemChips: 100000, Seat: 0}, {PlayerID: "c2", RedeemChips: 100000, Seat: 2}}})
+	if err != nil {
+		return
+	}
+	d.companion = id
+	d.stopCompanionFn = func() {
+		mu.Lock()
+		stopped = true
+		mu.Unlock()
+	}
+	m.PlayerJoin(id, "c1")
+	m.PlayerJoin(id, "c2")
+	m.StartTableGame(id)
+}
+
+func (d *TD) stopCompanion() {
+	if d.companion == "" {
+		return
+	}
+	if d.stopCompanionFn != nil {
+		d.stopCompanionFn()
+	}
+	d.mgr.CloseTable(d.companion)
+	d.companion = ""
 }
